@@ -12,6 +12,10 @@ atoms changes every per-atom container, and nobody else touches the containers.
   R4  parent bookkeeping: every insertion into _atoms / _bonds sets the element's parent
   R5  views: Substructure.coords getter and setter index the parent identically
   R6  a failing add_atom changes nothing: validation precedes the first mutation
+  R7  sibling resolvers agree: get_atom and get_atom_index (AtomLike -> atom / row index) dispatch on
+      the same type cases, and no case is shadowed by an earlier case for a superclass (Element is an
+      IntEnum, so `case int()` captures it) - otherwise the atom that is deleted and the row that is
+      deleted differ
 Not decided: that values stay attached to atom identity (numpy append/delete trusted).
 """
 from __future__ import annotations
@@ -32,7 +36,7 @@ EXPLANATION = (
     "indexing in the Substructure coordinate view, and validation-before-mutation in add_atom."
 )
 ASSUMPTIONS = ["numpy.append / numpy.delete along axis 0 add / remove exactly the addressed row"]
-FLOORS = {"C05.R1": 8, "C05.R2": 1, "C05.R3": 1, "C05.R4": 5, "C05.R5": 1, "C05.R6": 1}
+FLOORS = {"C05.R7": 2, "C05.R1": 8, "C05.R2": 1, "C05.R3": 1, "C05.R4": 5, "C05.R5": 1, "C05.R6": 1}
 
 CHAIN = {
     "Promolecule": "molli.chem.atom:Promolecule",
@@ -70,6 +74,7 @@ def run(chk):
     r4_parent(chk, cls)
     r5_views(chk)
     r6_validate_first(chk, cls)
+    r7_sibling_resolvers(chk, cls)
 
 
 def _super_calls(fn, name):
@@ -375,3 +380,61 @@ def r6_validate_first(chk, cls):
                  f"`{short(late[0].ast, 60)}` can run after the atom was already appended: add_atom with a mis-shaped coordinate raises and leaves one atom without a coordinate row")
     else:
         chk.ok("C05.R6", key, f.where(), f"{len(raises)} validation raise(s), all before the first mutation")
+
+
+def _type_cases(prog, f):
+    """ordered class names of the `case K():` arms of the match on the first parameter"""
+    p = f.params()[1]
+    ms = [m for m in walk_no_nested(f.node) if isinstance(m, ast.Match) and norm(m.subject) == p]
+    if len(ms) != 1:
+        raise AnalysisError(f"{f.key}: expected one `match {p}`")
+    out = []
+    for c in ms[0].cases:
+        pt = c.pattern
+        if isinstance(pt, ast.MatchAs) and pt.pattern is not None:
+            pt = pt.pattern
+        if isinstance(pt, ast.MatchClass):
+            out.append((norm(pt.cls), c))
+        elif isinstance(pt, ast.MatchOr):
+            for q in pt.patterns:
+                if isinstance(q, ast.MatchClass):
+                    out.append((norm(q.cls), c))
+    return out
+
+
+def r7_sibling_resolvers(chk, cls):
+    prog = chk.prog
+    pm = cls["Promolecule"]
+    ga = prog.method(pm, "get_atom")
+    gi = prog.method(pm, "get_atom_index")
+    chk.require(ga is not None and gi is not None, "Promolecule.get_atom / get_atom_index vanished")
+    chk.analysed(ga, gi)
+    ca, ci_ = _type_cases(prog, ga), _type_cases(prog, gi)
+    # builtin supertypes of the repo's enum classes (Element(IntEnum) is an int)
+    supers = {}
+    for name in {n for n, _ in ca + ci_}:
+        r = prog.resolve_name(pm.module, name)
+        if hasattr(r, "base_names"):
+            b = set(r.base_names)
+            if b & {"IntEnum", "int", "enum.IntEnum", "IntFlag"}:
+                supers[name] = "int"
+            if b & {"str", "StrEnum"}:
+                supers[name] = "str"
+    for f, cases in ((ga, ca), (gi, ci_)):
+        names = [n for n, _ in cases]
+        shadowed = [n for i, n in enumerate(names) if supers.get(n) in names[:i]]
+        chk.decide(not shadowed, "C05.R7", f"{f.key}:no-shadowed-type-case", f.where(), f"cases {names}",
+                   f"`case {shadowed[0] if shadowed else ''}()` comes after `case {supers.get(shadowed[0]) if shadowed else ''}()`, which already captures it: the later arm is dead")
+    sa, si = [n for n, _ in ca], [n for n, _ in ci_]
+    missing = [n for n in sa if n not in si]
+    captured = [n for n in missing if supers.get(n) in si]
+    key = f"{gi.key}:same-type-cases-as-get_atom"
+    if captured:
+        n = captured[0]
+        chk.fail("C05.R7", key, gi.where(),
+                 f"get_atom resolves `{n}` (first atom of that element) but get_atom_index has no `case {n}()`; {n} is an {supers[n]} subclass, so `case {supers[n]}()` takes it as a "
+                 f"row index: mol.del_atom(Element.O) removes the first oxygen but deletes coordinate/charge row 8")
+    else:
+        chk.decide(not missing, "C05.R7", key, gi.where(), f"get_atom {sa} / get_atom_index {si}",
+                   f"get_atom accepts {sa} but get_atom_index only {si}: the same AtomLike resolves to an atom in one and fails (or means something else) in the other")
+    # every del_atom override that computes a row index does so from the same argument that get_atom resolves - covered by R1
